@@ -124,6 +124,8 @@ func alphabet(nviews int, focus string) []op {
 type batchModel struct {
 	open bool
 	ops  map[string]*[]byte // key (view-relative) -> value or nil for delete
+	hist map[string]string  // key -> kinds of the operations the open batch has seen for it ("s"/"d"), part of the state key:
+	// a batch that saw Set then Delete for a key is not the same real state as one that only saw Delete
 	real kvstore.BatchedMutations
 	bufs [][]byte // caller buffers handed to the batch (scribbled after Commit)
 }
@@ -268,7 +270,7 @@ func (in *inst) Apply(i int) string {
 		b, e := v.Batched()
 		err = e
 		if e == nil {
-			in.batches[o.v] = batchModel{open: true, ops: map[string]*[]byte{}, real: b}
+			in.batches[o.v] = batchModel{open: true, ops: map[string]*[]byte{}, hist: map[string]string{}, real: b}
 		} else if b != nil {
 			return cls + "|non-nil-batch-with-error: Batched returned a batch together with " + errName(e)
 		}
@@ -280,6 +282,7 @@ func (in *inst) Apply(i int) string {
 		b.bufs = append(b.bufs, vb)
 		val := append([]byte{}, o.val...)
 		b.ops[string(o.key)] = &val
+		b.hist[string(o.key)] = tail3(b.hist[string(o.key)] + "s")
 		want = "nil"
 	case oBDelete:
 		b := &in.batches[o.v]
@@ -287,6 +290,7 @@ func (in *inst) Apply(i int) string {
 		err = b.real.Delete(kb)
 		scribble(kb)
 		b.ops[string(o.key)] = nil
+		b.hist[string(o.key)] = tail3(b.hist[string(o.key)] + "d")
 		want = "nil"
 	case oCommit:
 		b := &in.batches[o.v]
@@ -470,15 +474,23 @@ func (in *inst) Key() string {
 		var bs []string
 		for k, v := range bm.ops {
 			if v == nil {
-				bs = append(bs, fmt.Sprintf("%x:del", k))
+				bs = append(bs, fmt.Sprintf("%x:del/%s", k, bm.hist[k]))
 			} else {
-				bs = append(bs, fmt.Sprintf("%x:%x", k, *v))
+				bs = append(bs, fmt.Sprintf("%x:%x/%s", k, *v, bm.hist[k]))
 			}
 		}
 		sort.Strings(bs)
 		b.WriteString("|" + strings.Join(bs, ","))
 	}
 	return b.String()
+}
+
+// tail3 keeps the last three operation kinds (enough to tell every history the depth bounds can reach apart).
+func tail3(h string) string {
+	if len(h) > 3 {
+		return h[len(h)-3:]
+	}
+	return h
 }
 
 func mkSystem(t tree, w, focus string, depth int) *hist.System {
